@@ -2,7 +2,7 @@ import MoThreads.Proofs.QueueInv
 namespace MoThreads.Queue
 set_option maxHeartbeats 1000000
 
-theorem inv_init (m : Nat) (a : Bool) (d : List Nat) : Inv (init m a d) := by
+theorem inv_init (m : Nat) (a sl : Bool) (d : List Nat) : Inv (init m a sl d) := by
   constructor <;> simp [init, PC.holds, PC.passed, PC.popping, PC.wokeTill, PC.timedOutTill]
 
 set_option hygiene false in
